@@ -14,6 +14,7 @@ Definition bq_ok (b : bq) : bool :=
   | BRE j | BRN j => forallb rstep_ok j
   | BCR i o j => forallb rstep_ok i && negb (steps_vg i) && (forallb rstep_ok j && negb (steps_vg j)) &&
                  match o with OLt | OLe | OGt | OGe => true | _ => false end
+  | BPQ i ne j => forallb rstep_ok i && negb (steps_vg i) && (forallb rstep_ok j && negb (steps_vg j))
   end.
 Definition eq_text (ne : bool) : list N := if ne then [33; 61] else [61; 61].
 Definition bq_tokens (pos : nat) (b : bq) : list token :=
@@ -28,6 +29,8 @@ Definition bq_tokens (pos : nat) (b : bq) : list token :=
   | BRN j => [TAct 38] ++ rtok (pos + 1) j ++ [TAct 39; TText pos (pos + 2 + List.length (render_steps j)); TAct 27]
   | BCR i o j => left43_tokens pos i ++ right43_tokens (pos + 1 + List.length (render_steps i) + List.length (op_text o)) j ++ [TAct (op_act o)] ++
                  [TText pos (pos + (1 + List.length (render_steps i) + List.length (op_text o) + (1 + List.length (render_steps j)))); TAct 26]
+  | BPQ i ne j => left43_tokens pos i ++ right43_tokens (pos + 1 + List.length (render_steps i) + 2) j ++ [TAct (if ne then 29%nat else 28%nat)] ++
+                  [TText pos (pos + (1 + List.length (render_steps i) + 2 + (1 + List.length (render_steps j)))); TAct 26]
   end.
 
 Lemma bq_text_len b : List.length (bq_text b) =
@@ -39,15 +42,16 @@ Lemma bq_text_len b : List.length (bq_text b) =
   | BRE j => (1 + List.length (render_steps j))%nat
   | BRN j => (2 + List.length (render_steps j))%nat
   | BCR i o j => (1 + List.length (render_steps i) + List.length (op_text o) + (1 + List.length (render_steps j)))%nat
+  | BPQ i ne j => (1 + List.length (render_steps i) + 2 + (1 + List.length (render_steps j)))%nat
   end.
-Proof. destruct b as [i|i|i o lit|i ne l|j|j|i o j]; cbn [bq_text List.length]; rewrite ?app_length; cbn [List.length]; try lia. destruct ne; cbn [List.length]; lia. Qed.
+Proof. destruct b as [i|i|i o lit|i ne l|j|j|i o j|i ne j]; cbn [bq_text List.length]; rewrite ?app_length; cbn [List.length]; try lia; destruct ne; cbn [List.length]; lia. Qed.
 Lemma bq_head b : exists x r, bq_text b = x :: r /\ x <> 32.
-Proof. destruct b as [i|i|i o lit|i ne l|j|j|i o j]; cbn [bq_text]; eexists _, _; (split; [reflexivity|discriminate]). Qed.
+Proof. destruct b as [i|i|i o lit|i ne l|j|j|i o j|i ne j]; cbn [bq_text]; eexists _, _; (split; [reflexivity|discriminate]). Qed.
 
 Lemma ev35_bq b c t pos : bq_ok b = true -> qend c ->
   evG (PRef 35) (bq_text b ++ c :: t) pos (POk (c :: t) (pos + List.length (bq_text b)) (bq_tokens pos b)).
 Proof.
-  intros Hb Hq. rewrite bq_text_len. destruct b as [i|i|i o lit|i ne l|j|j|i o j]; cbn [bq_ok bq_text bq_tokens app] in *.
+  intros Hb Hq. rewrite bq_text_len. destruct b as [i|i|i o lit|i ne l|j|j|i o j|i ne j]; cbn [bq_ok bq_text bq_tokens app] in *.
   - eapply ev_conv.
     + eapply ev_ref; [reflexivity|].
       apply ev_alt_r; [apply ev_seq_fail; eapply ev_ref; [reflexivity|]; apply ev_seq_fail; apply (ev_lit_fail G [40]); reflexivity|].
@@ -208,6 +212,57 @@ Proof.
     + fold Li Lj K. f_equal; try lia.
       replace (pos + 1 + Li + K + 1 + Lj)%nat with (pos + (1 + Li + K + (1 + Lj)))%nat by lia.
       repeat (progress (cbn [app]) || rewrite <- app_assoc || rewrite app_nil_r). reflexivity.
+  - (* @ steps == $ steps, @ steps != $ steps *)
+    apply andb_true_iff in Hb. destruct Hb as [Hb Hj]. apply andb_true_iff in Hb. destruct Hb as [Hs _].
+    apply andb_true_iff in Hj. destruct Hj as [Hsj _]. pose proof (qend_closer c Hq) as Hc.
+    set (L := List.length (render_steps i)). set (Lj := List.length (render_steps j)).
+    assert (Hgen : forall c1 act, (c1 = 33 /\ act = 29%nat \/ c1 = 61 /\ act = 28%nat) ->
+              evG (PRef 35) (64 :: render_steps i ++ c1 :: 61 :: 36 :: render_steps j ++ c :: t) pos
+                  (POk (c :: t) (pos + (1 + L + 2 + (1 + Lj)))
+                       (left43_tokens pos i ++ right43_tokens (pos + 1 + L + 2) j ++ [TAct act] ++
+                        [TText pos (pos + (1 + L + 2 + (1 + Lj))); TAct 26]))).
+    { intros c1 act Hcase.
+      assert (Hc1 : closer c1 /\ c1 <> 32) by (destruct Hcase as [[E _]|[E _]]; subst c1; (split; [unfold closer; repeat split; try reflexivity; discriminate|discriminate])).
+      destruct Hc1 as [Hc1 Hc32].
+      assert (E43 := ev_rule43_c i c1 (61 :: 36 :: render_steps j ++ c :: t) pos Hs Hc1).
+      assert (Eright : evG (PSeq (PRef 58) (PSeq (PRef 40) (PAct act))) (36 :: render_steps j ++ c :: t) (pos + 1 + L + 2)
+                           (POk (c :: t) (pos + 1 + L + 2 + 1 + Lj) (right43_tokens (pos + 1 + L + 2) j ++ [TAct act]))).
+      { eapply ev_conv.
+        - eapply ev_seq_ok; [apply ev_space_stop; discriminate| |reflexivity].
+          eapply ev_seq_ok; [|apply ev_act|reflexivity].
+          eapply ev_ref; [reflexivity|]. apply ev_alt_r; [apply ev_seq_fail; apply ev_rule42_dollar|]. apply (ev_rule43_root j c t _ Hsj Hc).
+        - cbn [app]. reflexivity. }
+      destruct Hcase as [[E1 E2]|[E1 E2]]; subst c1 act.
+      - eapply ev_conv.
+        + eapply ev_ref; [reflexivity|].
+          apply ev_alt_r; [apply ev_seq_fail; eapply ev_ref; [reflexivity|]; apply ev_seq_fail; apply (ev_lit_fail G [40]); reflexivity|].
+          apply ev_alt_l. eapply ev_seq_ok; [apply ev_cap|apply ev_act|reflexivity].
+          eapply ev_ref; [reflexivity|]. apply ev_alt_l.
+          eapply ev_seq_ok; [eapply ev_ref; [reflexivity|]; apply ev_alt_r; [apply ev_seq_fail; apply ev_rule42_at|exact E43]| |reflexivity].
+          eapply ev_seq_ok; [apply ev_space_stop; exact Hc32| |reflexivity].
+          apply ev_alt_r; [apply ev_seq_fail; apply (ev_lit_fail G [61; 61]); reflexivity|].
+          eapply ev_seq_ok; [apply (ev_lit_ok G [33; 61]); reflexivity|exact Eright|reflexivity].
+        + fold L Lj. cbn [List.length Nat.add]. f_equal; try lia.
+          replace (pos + 1 + L + 2 + 1 + Lj)%nat with (pos + (1 + L + 2 + (1 + Lj)))%nat by lia.
+          repeat (progress (cbn [app]) || rewrite <- app_assoc || rewrite app_nil_r). reflexivity.
+      - eapply ev_conv.
+        + eapply ev_ref; [reflexivity|].
+          apply ev_alt_r; [apply ev_seq_fail; eapply ev_ref; [reflexivity|]; apply ev_seq_fail; apply (ev_lit_fail G [40]); reflexivity|].
+          apply ev_alt_l. eapply ev_seq_ok; [apply ev_cap|apply ev_act|reflexivity].
+          eapply ev_ref; [reflexivity|]. apply ev_alt_l.
+          eapply ev_seq_ok; [eapply ev_ref; [reflexivity|]; apply ev_alt_r; [apply ev_seq_fail; apply ev_rule42_at|exact E43]| |reflexivity].
+          eapply ev_seq_ok; [apply ev_space_stop; exact Hc32| |reflexivity].
+          apply ev_alt_l. eapply ev_seq_ok; [apply (ev_lit_ok G [61; 61]); reflexivity|exact Eright|reflexivity].
+        + fold L Lj. cbn [List.length Nat.add]. f_equal; try lia.
+          replace (pos + 1 + L + 2 + 1 + Lj)%nat with (pos + (1 + L + 2 + (1 + Lj)))%nat by lia.
+          repeat (progress (cbn [app]) || rewrite <- app_assoc || rewrite app_nil_r). reflexivity. }
+    destruct ne.
+    + replace (64 :: (render_steps i ++ [33; 61] ++ 36 :: render_steps j) ++ c :: t) with (64 :: render_steps i ++ 33 :: 61 :: 36 :: render_steps j ++ c :: t)
+        by (cbn [app]; rewrite <- !app_assoc; reflexivity).
+      apply (Hgen 33 29%nat). left. split; reflexivity.
+    + replace (64 :: (render_steps i ++ [61; 61] ++ 36 :: render_steps j) ++ c :: t) with (64 :: render_steps i ++ 61 :: 61 :: 36 :: render_steps j ++ c :: t)
+        by (cbn [app]; rewrite <- !app_assoc; reflexivity).
+      apply (Hgen 61 28%nat). right. split; reflexivity.
 Qed.
 
 (* ---------- conjunctions ---------- *)
@@ -410,6 +465,7 @@ Section QueryExec.
     | BRE j => QParam (root_pq cfg j)
     | BRN j => QNot (QParam (root_pq cfg j))
     | BCR i o j => QCmp (cmp_left cfg i) (CP (root_pq cfg j) true) (match o with OLt => CLt | OLe => CLe | OGt => CGt | _ => CGe end)
+    | BPQ i ne j => let q := QCmp (cmp_left cfg i) (CP (root_pq cfg j) true) CDeepEq in if ne then QNot q else q
     end.
 
   Lemma unescape_plain q body : forallb (plain_for q) body = true -> unescape_cps body = body.
@@ -443,7 +499,7 @@ Section QueryExec.
   Lemma exec_bq input p b rest ps toks cps bg : bq_ok b = true -> bq_okp b = true -> skipn p input = bq_text b ++ rest ->
     exists cps' b', execute (bq_tokens p b ++ toks) input cps bg (mk ps) = execute toks input cps' b' (mk (ps ++ [IQuery (bq_query b)])).
   Proof.
-    intros Hb Hp Hin. destruct b as [i|i|i o lit|i ne l|j|j|i o j]; cbn [bq_ok bq_okp bq_text bq_tokens bq_query] in *.
+    intros Hb Hp Hin. destruct b as [i|i|i o lit|i ne l|j|j|i o j|i ne j]; cbn [bq_ok bq_okp bq_text bq_tokens bq_query] in *.
     - set (L := List.length (render_steps i)).
       replace (([TAct 38] ++ inner_tokens p i ++ [TAct 39; TText p (p + 1 + L); TAct 27]) ++ toks)
         with ([TAct 38] ++ inner_tokens p i ++ [TAct 39] ++ ([TText p (p + 1 + L); TAct 27] ++ toks))
@@ -639,6 +695,51 @@ Section QueryExec.
                                     AOk (mk (ps ++ [IQuery (QCmp (cmp_left cfg i) (CP (root_pq cfg j) true) c1)]))).
       { intros c0 b0 c1. cbn [Actions.exec_action]. rewrite pop_mk. reflexivity. }
       rewrite E26. cbn [abind]. eexists _, _. reflexivity.
+    - apply andb_true_iff in Hb. destruct Hb as [Hb Hj]. apply andb_true_iff in Hb. destruct Hb as [Hs Hvg].
+      apply andb_true_iff in Hj. destruct Hj as [Hsj Hvgj]. apply negb_true_iff in Hvg. apply negb_true_iff in Hvgj.
+      set (Li := List.length (render_steps i)). set (Lj := List.length (render_steps j)).
+      unfold left43_tokens, right43_tokens. fold Li Lj.
+      set (act := if ne then 29%nat else 28%nat).
+      assert (Hin' : skipn p input = 64 :: render_steps i ++ (if ne then [33; 61] else [61; 61]) ++ 36 :: render_steps j ++ rest) by (rewrite Hin; cbn [app]; rewrite <- !app_assoc; reflexivity).
+      replace ((([TAct 38] ++ inner_tokens p i ++ [TAct 39; TText p (p + 1 + Li); TAct 37]) ++
+                ([TAct 38] ++ rtok (p + 1 + Li + 2) j ++ [TAct 39; TText (p + 1 + Li + 2) (p + 1 + Li + 2 + 1 + Lj); TAct 37]) ++
+                [TAct act] ++ [TText p (p + (1 + Li + 2 + (1 + Lj))); TAct 26]) ++ toks)
+        with ([TAct 38] ++ inner_tokens p i ++ [TAct 39] ++
+              ([TText p (p + 1 + Li); TAct 37] ++ ([TAct 38] ++ rtok (p + 1 + Li + 2) j ++ [TAct 39] ++
+               ([TText (p + 1 + Li + 2) (p + 1 + Li + 2 + 1 + Lj); TAct 37; TAct act; TText p (p + (1 + Li + 2 + (1 + Lj))); TAct 26] ++ toks))))
+        by (repeat (progress (cbn [app]) || rewrite <- app_assoc); reflexivity).
+      rewrite (exec_operand input p i _ ps _ cps bg Hs Hin').
+      assert (E37 : forall c0 b0, exec_action 37 c0 b0 (mk (ps ++ [IPQ (filter_pq cfg i); IBool false])) = AOk (mk (ps ++ [ICParam (cmp_left cfg i)]))).
+      { intros c0 b0. cbn [Actions.exec_action].
+        change (ps ++ [IPQ (filter_pq cfg i); IBool false]) with (ps ++ [IPQ (filter_pq cfg i)] ++ [IBool false]). rewrite app_assoc, pop_mk. cbn [abind].
+        rewrite pop_mk. cbn [abind]. unfold cmp_left, filter_pq. rewrite (operand_vg cfg), Hvg. reflexivity. }
+      match goal with |- context [execute ([TText ?b1 ?e1; TAct 37] ++ ?tl) input ?c0 ?b0 ?st] =>
+        change (execute ([TText b1 e1; TAct 37] ++ tl) input c0 b0 st)
+          with (abind (exec_action 37 (sub_list input b1 e1) b1 st) (fun st' => execute tl input (sub_list input b1 e1) b1 st')) end.
+      rewrite E37. cbn [abind].
+      assert (Hinj : skipn (p + 1 + Li + 2) input = 36 :: render_steps j ++ rest).
+      { set (X := (64 :: render_steps i) ++ (if ne then [33; 61] else [61; 61])).
+        pose proof (skipn_next input p X (36 :: render_steps j ++ rest)) as H.
+        assert (HX : List.length X = (1 + Li + 2)%nat) by (unfold X; rewrite app_length; destruct ne; cbn [List.length]; unfold Li; lia).
+        rewrite HX in H. replace (p + (1 + Li + 2))%nat with (p + 1 + Li + 2)%nat in H by lia.
+        apply H. rewrite Hin'. unfold X. cbn [app]. rewrite <- !app_assoc. reflexivity. }
+      rewrite (exec_operand_root cfg parse_float regex_ok input (p + 1 + Li + 2) j rest (ps ++ [ICParam (cmp_left cfg i)]) _ _ _ Hsj Hinj). cbn [app Actions.execute].
+      assert (E37r : forall c0 b0, exec_action 37 c0 b0 (mk ((ps ++ [ICParam (cmp_left cfg i)]) ++ [IPQ (root_pq cfg j); IBool true])) =
+                                  AOk (mk ((ps ++ [ICParam (cmp_left cfg i)]) ++ [ICParam (CP (root_pq cfg j) true)]))).
+      { intros c0 b0. cbn [Actions.exec_action].
+        change ((ps ++ [ICParam (cmp_left cfg i)]) ++ [IPQ (root_pq cfg j); IBool true]) with ((ps ++ [ICParam (cmp_left cfg i)]) ++ [IPQ (root_pq cfg j)] ++ [IBool true]).
+        rewrite app_assoc, pop_mk. cbn [abind]. rewrite pop_mk. cbn [abind]. unfold root_pq. rewrite (root_operand_vg cfg), Hvgj. reflexivity. }
+      rewrite E37r. cbn [abind].
+      assert (Eop : forall c0 b0, exec_action act c0 b0 (mk ((ps ++ [ICParam (cmp_left cfg i)]) ++ [ICParam (CP (root_pq cfg j) true)])) =
+                                 AOk (mk (ps ++ [IQuery (if ne then QNot (QCmp (cmp_left cfg i) (CP (root_pq cfg j) true) CDeepEq) else QCmp (cmp_left cfg i) (CP (root_pq cfg j) true) CDeepEq)]))).
+      { intros c0 b0. unfold act. destruct ne; cbn [Actions.exec_action]; unfold two_operands, pop_cparam; rewrite pop_mk; cbn [abind]; rewrite pop_mk; cbn [abind].
+        - unfold push_compare_eq, cmp_left, root_pq, filter_pq. change (swap_required ?a ?b) with false. cbv iota beta. unfold pop_query, push. rewrite pop_mk. cbn [abind]. reflexivity.
+        - unfold push_compare_eq, cmp_left, root_pq, filter_pq. reflexivity. }
+      rewrite Eop. cbn [abind].
+      assert (E26 : forall c0 b0 q0, (q0 = QCmp (cmp_left cfg i) (CP (root_pq cfg j) true) CDeepEq \/ q0 = QNot (QCmp (cmp_left cfg i) (CP (root_pq cfg j) true) CDeepEq)) ->
+                      exec_action 26 c0 b0 (mk (ps ++ [IQuery q0])) = AOk (mk (ps ++ [IQuery q0]))).
+      { intros c0 b0 q0 [E|E]; subst q0; cbn [Actions.exec_action]; rewrite pop_mk; reflexivity. }
+      rewrite E26 by (destruct ne; auto). cbn [abind]. eexists _, _. destruct ne; reflexivity.
   Qed.
 
   Definition conj_query (c : list bq) : query :=
